@@ -290,6 +290,14 @@ pub async fn run_scenario(world: &mut World, req: &str, case: usize, out: &mut V
                 let at = t0 + rng.below((dur / MS) as u64) as u128 * MS;
                 sim.schedule(at, format!("api 0 {}", ["state", "contacts", "addr"][rng.below(3) as usize]));
             }
+            // callers that give up waiting (a time-out around bootstrapped()), followed by further calls
+            if rng.chance(1, 2) {
+                for _ in 0..rng.range(1, 3) {
+                    let at = t0 + rng.below((dur.min(120 * S) / MS) as u64) as u128 * MS;
+                    sim.schedule(at, "api 0 cancel".into());
+                    sim.schedule(at + rng.below(3000) as u128 * MS, "api 0 bootstrapped".into());
+                }
+            }
             sim.schedule(sim.end, "api 0 state".into());
             if kind == "probe" {
                 // queries, garbage and replayed ids from the contacts while the node is busy
@@ -631,6 +639,8 @@ struct NodeTrack {
     handled: usize,
     /// waiter -> (registered at, resolved at)
     waiters: Vec<(u128, Option<u128>)>,
+    /// waiters whose caller gave up (`api <k> cancel`)
+    cancelled: HashSet<usize>,
     rounds: Vec<u128>,
     completions: Vec<u128>,
     /// search stream -> (issued at, announce, yields, closed at)
@@ -739,6 +749,8 @@ impl Checker {
             let t = self.track.entry(k).or_default();
             match w[2] {
                 "bootstrapped" => t.waiters.push((now, None)),
+                // the oldest call still pending is given up
+                "cancel" => { if let Some(i) = (0..t.waiters.len()).find(|i| t.waiters[*i].1.is_none() && !t.cancelled.contains(i)) { t.cancelled.insert(i); } }
                 "search" => t.searches.push((now, w[4] == "1", vec![], None)),
                 _ => {}
             }
@@ -861,6 +873,7 @@ impl Checker {
         for (k, t) in self.track.iter() {
             if let Some(latest) = t.waiters.iter().filter_map(|w| w.1).max() {
                 for (i, wt) in t.waiters.iter().enumerate() {
+                    if t.cancelled.contains(&i) { continue }
                     if wt.0 < latest && wt.1.is_none() && now > latest {
                         st.fail(case, line, &format!("[C15] node {k}: waiter {i} registered at {} is still waiting although bootstrapped() resolved for others at {latest}", wt.0));
                     }
@@ -905,6 +918,7 @@ impl Checker {
                 let responsive_since = sim.peers.iter().filter(|p| t.nodes.contains(&p.addr) && !t.fail.contains(&p.addr)).filter_map(|p| match p.policy { Policy::Good => Some(t.started), Policy::GoodFrom(x) => Some(x.max(t.started)), _ => None }).min();
                 if let Some(tr) = responsive_since {
                     for (i, wt) in t.waiters.iter().enumerate() {
+                        if t.cancelled.contains(&i) { continue }
                         let deadline = tr.max(wt.0) + 660 * S;
                         let late = match wt.1 { Some(r) => r > deadline, None => now > deadline };
                         if late {
